@@ -11,6 +11,8 @@ DELIMS = [('(', ')'), ('[', ']'), ('\\{', '\\}'), ('|', '|'), ('.', ')'), ('\\la
 MACROS = {'zqm': (1, '\\alpha_{#1}'), 'zqv': (0, '\\vec{v}'), 'zqf': (2, '\\frac{#1}{#2}+1'), 'zqs': (1, '{#1}^{2}'), 'zqe': (0, '\\varepsilon')}
 
 
+DEF_STYLE = ('zqv', 'zqm')
+
 # user macros with an optional first argument: name -> (number of arguments, default of the optional one, body)
 OPT_MACROS = {'zqn': (2, '', '\\left\\| #2\\right\\| _{#1}'), 'zqr': (2, '3', '\\sqrt[#1]{#2}')}
 
@@ -18,7 +20,11 @@ OPT_MACROS = {'zqn': (2, '', '\\left\\| #2\\right\\| _{#1}'), 'zqr': (2, '3', '\
 def preamble():
     out = ''
     for name, (n, body) in sorted(MACROS.items()):
-        out += '\\newcommand{\\%s}%s{%s}\n' % (name, '[%d]' % n if n else '', body)
+        if name in DEF_STYLE:
+            # the same macros as plain TeX definitions (a parameterless \def hands out its stored replacement text itself)
+            out += '\\def\\%s%s{%s}\n' % (name, ''.join('#%d' % (k + 1) for k in range(n)), body)
+        else:
+            out += '\\newcommand{\\%s}%s{%s}\n' % (name, '[%d]' % n if n else '', body)
     for name, (n, dflt, body) in sorted(OPT_MACROS.items()):
         out += '\\newcommand{\\%s}[%d][%s]{%s}\n' % (name, n, dflt, body)
     return out
